@@ -42,6 +42,16 @@ SplitBreaks(s, cur) ==
 HasBreak(s) == \E i \in 1..Len(s) : IsBreak(s[i])
 (* the characters of a text without blanks and line breaks *)
 Solid(s) == SelectSeq(s, LAMBDA c : ~IsBreak(c) /\ c # Space)
+(* L is the text h with every line break (CR LF, LF, CR) turned into one blank or into nothing: *)
+(* every other character - blanks and tabs included - is preserved, in order                    *)
+RECURSIVE BreaksFlattened(_, _)
+BreaksFlattened(L, h) ==
+    IF h = <<>> THEN L = <<>>
+    ELSE LET n == IF h[1] = 13 /\ Len(h) >= 2 /\ h[2] = 10 THEN 2 ELSE 1
+             rest == SubSeq(h, n + 1, Len(h)) IN
+         IF IsBreak(h[1])
+         THEN BreaksFlattened(L, rest) \/ (L # <<>> /\ L[1] = Space /\ BreaksFlattened(Tail(L), rest))
+         ELSE L # <<>> /\ L[1] = h[1] /\ BreaksFlattened(Tail(L), Tail(h))
 
 (* get_default_semantics: "Variable <d>", "arb. unit" *)
 DefaultName(d) == <<86, 97, 114, 105, 97, 98, 108, 101, 32>> \o Digits(d)
